@@ -1,10 +1,10 @@
 #!/usr/bin/env python3
 """Regenerate coq/Gen/*.v from /repo's current headers (run on every check).
-Usage: gen.py [enc|float|lock|prefix|mutex|ptr|all]...   Exit 0 = all requested files generated.
+Usage: gen.py [enc|float|lock|prefix|qsbr|asserts|mutex|ptr|all]...   Exit 0 = all requested files generated.
 On a translator failure the file is replaced by a stub that does not define
 the functions, so the dependent bridge proofs fail (broken tie), and the
 failure text is written to build/gen_errors.json."""
-import sys, os, json
+import sys, os, json, re
 sys.path.insert(0, os.path.dirname(os.path.abspath(__file__)))
 import cxx2v
 from cxx2v import Unit, Fn, Unsupported, emit
@@ -319,9 +319,169 @@ def gen_shape(which):
     return origin, body, imp
 
 
+ASSERT_HEADERS = ['art_internal.hpp', 'art_internal_impl.hpp', 'art.hpp']
+_KW = {'if', 'for', 'while', 'switch', 'catch', 'return', 'sizeof', 'decltype', 'noexcept', 'alignas', 'alignof',
+       'static_assert', 'requires', 'defined', 'throw', 'new', 'delete', 'typeid', 'assert', 'else', 'do'}
+
+
+def _strip_comments(text):
+    """comments and preprocessor lines -> spaces (string / char literals kept verbatim)"""
+    out, i, n = [], 0, len(text)
+    bol = True
+    while i < n:
+        c = text[i]
+        if c == '/' and text[i:i + 2] == '//':
+            while i < n and text[i] != '\n':
+                i += 1
+        elif c == '/' and text[i:i + 2] == '/*':
+            j = text.find('*/', i + 2)
+            j = n if j < 0 else j + 2
+            out.append(' ')
+            i = j
+        elif c == "'" and i > 0 and text[i - 1].isalnum():
+            out.append(c)   # digit separator
+            i += 1
+        elif c in '"\'':
+            j = i + 1
+            while j < n and text[j] != c:
+                j += 2 if text[j] == '\\' else 1
+            out.append(text[i:j + 1])
+            i = j + 1
+            bol = False
+        elif c == '#' and bol:
+            while i < n and text[i] != '\n':
+                if text[i] == '\\' and text[i + 1:i + 2] == '\n':
+                    i += 1
+                i += 1
+        else:
+            out.append(c)
+            if c == '\n':
+                bol = True
+            elif not c.isspace():
+                bol = False
+            i += 1
+    return ''.join(out)
+
+
+def _scope_name(header):
+    """crude: (kind, name) of the block that the text before a '{' opens"""
+    h = header.strip()
+    m = None
+    for m in re.finditer(r'\b(class|struct|union)\s+(?:\[\[[^\]]*\]\]\s*)?(?:alignas\s*\([^)]*\)\s*)?([A-Za-z_]\w*)', h):
+        pass
+    par = re.search(r'\(', h)
+    if m and (not par or par.start() > m.start()) and not re.search(r'\btemplate\s*<[^>]*$', h[:m.start()]):
+        return 'c', m.group(2)
+    if re.match(r'^(inline\s+)?namespace\b', h) or re.match(r'^extern\b', h):
+        return 'n', ''
+    for f in re.finditer(r'(operator\s*(?:\[\]|\(\)|[^\s\w(]+)|[A-Za-z_~][\w~]*)\s*(?:<[^<>()]*>)?\s*\(', h):
+        nm = re.sub(r'\s+', '', f.group(1))
+        if nm in _KW or nm.startswith('UNODB_') or nm.startswith('__'):
+            continue
+        return 'f', nm
+    return None, None
+
+
+def scan_asserts(fname, text):
+    """[(scope, expression)] of every UNODB_DETAIL_ASSERT(...) in source order"""
+    t = _strip_comments(text)
+    res, stack, closed = [], [], {}
+    i, n, start = 0, len(t), 0
+    tok = 'UNODB_DETAIL_ASSERT'
+    while i < n:
+        c = t[i]
+        if c in '"\'' and not (c == "'" and t[i - 1].isalnum()):
+            j = i + 1
+            while j < n and t[j] != c:
+                j += 2 if t[j] == '\\' else 1
+            i = j + 1
+            continue
+        if c == '{':
+            hdr = t[start:i]
+            kind, nm = _scope_name(hdr)
+            d = len(stack)
+            if kind is None and (hdr.strip() == '' or hdr.strip().startswith(',')) and closed.get(d):
+                kind, nm = closed[d]
+            stack.append((kind, nm))
+            start = i + 1
+        elif c == '}':
+            if stack:
+                top = stack.pop()
+                closed[len(stack)] = top if top[0] == 'f' else None
+            start = i + 1
+        elif c == ';':
+            closed[len(stack)] = None
+            start = i + 1
+        elif t.startswith(tok, i) and not (t[i - 1].isalnum() or t[i - 1] == '_') and not (
+                t[i + len(tok):i + len(tok) + 1].isalnum() or t[i + len(tok):i + len(tok) + 1] == '_'):
+            j = i + len(tok)
+            while j < n and t[j].isspace():
+                j += 1
+            if j < n and t[j] == '(':
+                depth, k = 0, j
+                while k < n:
+                    if t[k] in '"\'' and not (t[k] == "'" and t[k - 1].isalnum()):
+                        q = k + 1
+                        while q < n and t[q] != t[k]:
+                            q += 2 if t[q] == '\\' else 1
+                        k = q
+                    elif t[k] == '(':
+                        depth += 1
+                    elif t[k] == ')':
+                        depth -= 1
+                        if depth == 0:
+                            break
+                    k += 1
+                if depth != 0:
+                    raise Unsupported('unbalanced assertion in %s' % fname)
+                expr = re.sub(r'\s+', ' ', t[j + 1:k]).strip()
+                cls = [nm for kd, nm in stack if kd == 'c']
+                fns = [nm for kd, nm in stack if kd == 'f']
+                scope = '::'.join(([cls[-1]] if cls else []) + ([fns[0]] if fns else []))
+                res.append(('%s:%s' % (fname, scope or '?'), expr))
+                i = k + 1
+                continue
+        i += 1
+    return res
+
+
+def emit_plain(path, origin, body):
+    import hashlib
+    text = '(** GENERATED by tools/gen.py from %s -- do not edit, not committed.\n    Source hash: %s *)\n' % (
+        origin, hashlib.sha256(body.encode()).hexdigest()[:16]) + body
+    if not os.path.exists(path) or open(path).read() != text:
+        open(path, 'w').write(text)
+
+
+def coq_string(s):
+    if any(ord(ch) < 32 or ord(ch) > 126 for ch in s):
+        raise Unsupported('non-printable character in an assertion expression')
+    return '"' + s.replace('"', '""') + '"'
+
+
+def gen_asserts():
+    """plain-text inventory of every UNODB_DETAIL_ASSERT of the sequential ART headers; compared with the hand-written
+    classification in Art/ArtAsserts.v by Art/ArtAssertsBridge.v"""
+    rows = []
+    for h in ASSERT_HEADERS:
+        src = open(os.path.join(cxx2v.REPO, h)).read()
+        found = scan_asserts(h, src)
+        raw = len(re.findall(r'(?<![\w])UNODB_DETAIL_ASSERT\s*\(', _strip_comments(src)))
+        if raw != len(found) or not found:
+            raise Unsupported('%s: %d assertion tokens but %d extracted' % (h, raw, len(found)))
+        rows += found
+    body = 'From Coq Require Import List String.\nImport ListNotations.\nLocal Open Scope string_scope.\n\n'
+    body += '(* (header:scope, expression text) of each UNODB_DETAIL_ASSERT, in source order *)\n'
+    body += 'Definition gen_asserts : list (string * string) :=\n  [ '
+    body += ';\n    '.join('(%s, %s)' % (coq_string(a), coq_string(b)) for a, b in rows)
+    body += ' ].\n\nDefinition gen_asserts_count : nat := %d.\n' % len(rows)
+    return 'UNODB_DETAIL_ASSERT inventory of ' + ' '.join(ASSERT_HEADERS), body, None, None
+
+
 TARGETS = {'enc': ('GenEncode.v', gen_encode), 'float': ('GenFloat.v', gen_float), 'lock': ('GenLockWord.v', gen_lock),
            'prefix': ('GenKeyPrefix.v', gen_prefix),
            'qsbr': ('GenQsbrState.v', gen_qsbr),
+           'asserts': ('GenAsserts.v', gen_asserts),
            'mutex': ('GenMutexMethods.v', lambda: gen_shape('mutex')), 'ptr': ('GenPtrMethods.v', lambda: gen_shape('ptr'))}
 
 
@@ -337,7 +497,9 @@ def main(argv):
         path = os.path.join(GEN, fn)
         try:
             r = g()
-            if len(r) == 3:
+            if len(r) == 4:
+                emit_plain(path, r[0], r[1])
+            elif len(r) == 3:
                 import shape2v
                 shape2v.emit(path, r[0], r[1], r[2])
             else:
